@@ -99,6 +99,12 @@ func init() {
 		}
 		return mkStr(out)
 	}
+	externals["(*strings.Builder).copyCheck"] = func(fr *frame, args []value) value { return nil }
+	externals["(*strings.Builder).String"] = func(fr *frame, args []value) value {
+		st := (*args[0].(*value)).(structure)
+		buf, _ := st[1].([]value)
+		return mkStr(buf)
+	}
 	externals["internal/stringslite.Clone"] = func(fr *frame, args []value) value { return args[0] }
 	externals["strings.Clone"] = externals["internal/stringslite.Clone"]
 	externals["strings.HasPrefix"] = func(fr *frame, args []value) value {
